@@ -178,6 +178,8 @@ def gen_c12(ctx):
         u = {"seed": rng.next(), "k": 1, "size": rng.choice([1, 2, 4, 8, 20 if thorough else 8]), "shared": 0, "minors": [rng.choice([0, 1, 2, 3])], "alt": rng.chance(1, 4)}
         how = rng.choice(["db", "mod", "mod"])
         add(u, {}, _regs(rng, [0], how) + [{"op": "roundtrip", "sweep": n % 3 == 0}])
+        if n % 4 == 0:
+            add(u, {}, _regs(rng, [0], how) + [{"op": "verify", "sweep": False, "dump_first": True}])
     reals = sorted(x for x in os.listdir(REAL_DIR) if x.endswith(".in"))
     for name in reals:
         add({"real": [name]}, {}, [{"op": "reg_db", "lib": 0}, {"op": "roundtrip", "sweep": True}])
@@ -190,7 +192,7 @@ def gen_c12(ctx):
         size = len(F.serialise(idb_gen.gen_universe(Rng(u["seed"]), 1, size=u["size"], shared=0, minor_choices=tuple(u["minors"]))[0]))
         offs = range(size) if (thorough or n < 2) else sorted(set(rng.below(size) for _ in range(120)))
         for off in offs:
-            add(u, {"0": {"kind": "torn", "off": off}}, [{"op": "reg_db", "lib": 0}, {"op": "verify", "sweep": False, "lookups": False}])
+            add(u, {"0": {"kind": "torn", "off": off}}, [{"op": "reg_db", "lib": 0}] + ([{"op": "flag"}] if off % 3 == 0 else []) + [{"op": "verify", "sweep": False, "lookups": False}])
     for name in reals:
         with open(os.path.join(REAL_DIR, name), "rb") as f:
             size = len(f.read())
@@ -206,6 +208,9 @@ def gen_c12(ctx):
                   [{"kind": "ident-line", "text": "notanumber"}, {"kind": "missing"}, {"kind": "isdir"}] +
                   [{"kind": "read", "k": k} for k in (1, 2, 3)] + [{"kind": "chunk", "n": c} for c in (1, 13, 512)]):
             add(u, {"0": f}, [{"op": "reg_db", "lib": 0}, {"op": "verify", "sweep": False, "lookups": f["kind"] == "chunk"}])
+            if n % 2 == 0:
+                # the error flag asked as the very first thing after the request, before any other query has made the library read the file
+                add(u, {"0": f}, [{"op": "reg_db", "lib": 0}, {"op": "flag"}, {"op": "verify", "sweep": False, "lookups": False}])
         add(u, {"0": {"kind": "ident", "delta": rng.below(1000)}}, [{"op": "reg_mod", "lib": 0, "range": True, "ident": "match"}, {"op": "verify"}])
         # the same mismatch for a module definition without a compiled-in index range (the database numbers it itself)
         add(u, {"0": {"kind": "ident", "delta": rng.below(1000)}}, [{"op": "reg_mod", "lib": 0, "range": False, "ident": "match", "uniq": rng.choice([None, 2])}, {"op": "verify"}])
@@ -300,13 +305,15 @@ def gen_c13(ctx, focus="C13"):
                 ops.insert(last_reg + 1, {"op": "count_first", "fn": rng.choice(sorted(ENUM_COUNTS))})
             if focus == "C20":
                 ops.append({"op": "uniq", "seed": rng.below(1 << 30), "even_empty": True})
-            ops.append({"op": "verify", "sweep": focus == "C20" or rng.chance(1, 5), "lookups": True})
+            ops.append({"op": "verify", "sweep": focus == "C20" or rng.chance(1, 5), "lookups": True, "dump_first": focus == "C13" and i % 7 == 3})
             if focus == "C20":
                 ops.append({"op": "uniq", "seed": rng.below(1 << 30)})
             plan = {"id": i, "focus": focus, "build": "san" if (not thorough or i % 4) else "rel", "universe": u, "faults": faults, "ops": ops}
             if search_op is not None:
                 # just before the first operation that queries the database
-                first_q = next((j for j, o in enumerate(ops) if o["op"] not in ("reg_db", "reg_mod", "flag")), len(ops))
+                # (asking for the error flag is such an operation; some plans keep it ahead of the search directory: that load must fail)
+                early_flag = i % 5 == 0
+                first_q = next((j for j, o in enumerate(ops) if o["op"] not in (("reg_db", "reg_mod", "flag") if early_flag else ("reg_db", "reg_mod"))), len(ops))
                 ops.insert(first_q, search_op)
                 plan["relative"] = True
             plans.append(plan)
